@@ -335,9 +335,18 @@ class _SplitLoop(SiteRewriter):
 
 
 def _lister(
-    func: FuncDef, factor: 'Expr | None', strategy: SplitLoopStrategy
+    func: FuncDef, factor: 'Expr | int | str | None', strategy: SplitLoopStrategy
 ) -> '_SplitLoop':
-    """The pass instance a listing walks `func` with."""
+    """The pass instance a listing walks `func` with.
+
+    A listing is asked with the arguments of the rewrite it is a listing for.
+    The `split` strategy takes its factor as an integer or a variable name, so
+    those are read here the way the strategy reads them; left as they are, a
+    constant factor was not recognised and ``STRICT`` listed loops it refuses."""
+    if isinstance(factor, int):
+        factor = Integer(factor, None)
+    elif isinstance(factor, str):
+        factor = Var(NamedId(factor), None)
     return _SplitLoop(
         func,
         Integer(1, None) if factor is None else factor,
@@ -388,7 +397,7 @@ class SplitLoop:
         func: FuncDef,
         within: Cursor | None = None,
         *,
-        factor: Expr | None = None,
+        factor: Expr | int | str | None = None,
         strategy: SplitLoopStrategy = SplitLoopStrategy.PEEL,
     ) -> list[Cursor]:
         """The `for` loops of `func` this rewrite would split, in visit order --
@@ -406,7 +415,7 @@ class SplitLoop:
         func: FuncDef,
         within: Cursor | None = None,
         *,
-        factor: Expr | None = None,
+        factor: Expr | int | str | None = None,
         strategy: SplitLoopStrategy = SplitLoopStrategy.PEEL,
     ) -> list[tuple[Cursor, str]]:
         """Why each `for` loop of `func` that is not a site was refused."""
